@@ -144,7 +144,12 @@ def build_alphabet(m, ents, rng=None, small=False):
     vi = keys.index("version") if "version" in keys else max(0, len(segs) - 3)
     last = "/".join(segs[:vi] + [">"] + segs[vi + 1:])           # '>' at the version position
     const = "/".join(segs[:vi] + ["*"] + segs[vi + 1:vi + 2])    # a constant-backed level below a searched parent
+    # a search unfolding into dozens of typed searches (12 alternatives x the leaf types below '**')
+    wide = "/".join(segs[:3] + [",".join([segs[3]] + ["w%02d" % i for i in range(11)])] + ["**"]) if len(segs) > 4 else dstar
+    add("unfold", X.call("unfold_search", wide))
+    add("match", X.meth(X.sid(f), "match", wide))
     for F in finders:
+        add("find", X.meth(F, "find", wide))
         for s in (star, star2, dstar, f, al, last, const):
             add("find", X.meth(F, "find", s))
         add("find_one", X.meth(F, "find_one", last))
@@ -155,6 +160,15 @@ def build_alphabet(m, ents, rng=None, small=False):
         add("find_one", X.meth(F, "find_one", dstar))
         add("find", X.meth(F, "find", star, as_sid=False))
         add("find", X.meth(F, "exists", f))
+    # chains: one search string taken through several entry points in a row (a finder, the unfolding, match, another
+    # finder): what one of them leaves behind must not change what the next one answers. Each call is compared with
+    # the fresh twin only (no equality between the different calls is implied).
+    P0, L0, A0 = X.call("FindInPaths", cfgs[0]), X.call("FindInList", sorted(ents)), X.call("FindInAll")
+    for s in (star, dstar, wide, last, al):
+        chain = [("find", X.meth(P0, "find", s)), ("unfold", X.call("unfold_search", s)), ("match", X.meth(X.sid(f), "match", s)),
+                 ("find", X.meth(L0, "find", s)), ("find", X.meth(A0, "find", s)), ("find", X.meth(P0, "find", s))]
+        G.append({"tag": "chain", "chain": True, "es": [[t, e] for t, e in chain]})
+        G.append({"tag": "chain", "chain": True, "es": [[t, e] for t, e in reversed(chain)]})
     for s in (f, d):
         add("find", X.meth(X.sid(s), "exists"))
         add("find", X.meth(X.sid(s), "children"))
@@ -241,6 +255,8 @@ class HistoryProfile(StoreProfile):
             return {"op": "flood", "n": rng.choice([3, 10, 70, 140]), "salt": rng.randrange(1000)}
         if r < 0.40 and G:
             g = rng.choice(G)
+            if g.get("chain"):
+                return {"op": "chain", "es": g["es"]}
             es = list(g["es"])
             rng.shuffle(es)
             return {"op": "group", "tag": g["tag"], "es": es[: rng.randint(2, len(es))]}
@@ -313,6 +329,11 @@ class HistoryProfile(StoreProfile):
             e0, o0 = seen[0]
             for e, o in seen[1:]:
                 run.check(o == o0, "C13.keyword_vs_positional", {"a": e0, "b": e, "obs_a": o0, "obs_b": o, "tag": step["tag"]})
+        elif op == "chain":
+            for tag, e in step["es"]:
+                obs = run.do(e)
+                self.compare(run, tag, e, obs)
+            run.probes["chains"] += 1
         elif op == "take":
             run.do(X.take(step["e"], step["n"], keep="gen%d" % (len(run.steps) % 3)))
             run.probes["partially_consumed_generators"] += 1
